@@ -50,6 +50,7 @@ static void c03_state(const vr::ClassInfo * ci, Rng & r, const std::set<unsigned
     ol::GenOpts g;
     g.stale_lengths = r.chance(1, 3);
     g.fixed_len = fixed_len;
+    g.populate_inactive = r.chance(1, 2);   // members of inactive variants may hold anything: they must not influence the framing
     bool dflt = (fixed_len < 0) && r.chance(1, 25);   // default-constructed object
     if (!dflt) ol::randomise(ob, r, g);
     bool reuse = !dflt && r.chance(1, 6);
